@@ -12,22 +12,32 @@
 (*      "none"     : no prefilter                                          *)
 (*    find_simple = position of the rarest byte (pair index1) found by     *)
 (*    memchr, minus its offset, saturating at 0.                           *)
-(* MIN_SKIPS = 50, MIN_SKIP_BYTES = 8 in the code; u32 saturation is not   *)
-(* modelled (unreachable below 2^32 calls/bytes).                          *)
+(* MIN_SKIPS = 50, MIN_SKIP_BYTES = 8 in the code.  Both counters are u32  *)
+(* and saturate at CTRMAX (2^32 - 1 in the code); the effectiveness test   *)
+(* multiplies MIN_SKIP_BYTES * skips() in the same width.  MulSaturates =  *)
+(* TRUE models the code after the fix commit "fix: avoid u32 overflow in   *)
+(* PrefilterState::is_effective" (saturating_mul); FALSE models the        *)
+(* original code, where the product overflows (ovf) once skips() reaches   *)
+(* (CTRMAX + 1) / MIN_SKIP_BYTES -- a genuine defect found with this       *)
+(* machinery (see known_findings.json and MC_PrefilterState).              *)
 (***************************************************************************)
 EXTENDS PackedPair
 
-CONSTANTS MIN_SKIPS, MIN_SKIP_BYTES
+CONSTANTS MIN_SKIPS, MIN_SKIP_BYTES, CTRMAX, MulSaturates
 
 PS_New == [skips |-> 1, skipped |-> 0]
 PS_Inert(ps) == ps.skips = 0
 PS_Skips(ps) == IF ps.skips = 0 THEN 0 ELSE ps.skips - 1
-PS_Update(ps, k) == [skips |-> ps.skips + 1, skipped |-> ps.skipped + k]
+PS_Sat(x) == IF x > CTRMAX THEN CTRMAX ELSE x
+PS_Update(ps, k) == [skips |-> PS_Sat(ps.skips + 1), skipped |-> IF k > CTRMAX THEN CTRMAX ELSE PS_Sat(ps.skipped + k)]
+\* MIN_SKIP_BYTES * skips() in the counters' width: does the product leave the width?
+PS_MulOverflows(ps) == ~PS_Inert(ps) /\ PS_Skips(ps) >= MIN_SKIPS /\ MIN_SKIP_BYTES * PS_Skips(ps) > CTRMAX
+PS_Product(ps) == IF MulSaturates THEN PS_Sat(MIN_SKIP_BYTES * PS_Skips(ps)) ELSE (MIN_SKIP_BYTES * PS_Skips(ps)) % (CTRMAX + 1)
 \* returns [eff, ps] -- is_effective may flip the state to inert
 PS_Effective(ps) ==
   IF PS_Inert(ps) THEN [eff |-> FALSE, ps |-> ps]
   ELSE IF PS_Skips(ps) < MIN_SKIPS THEN [eff |-> TRUE, ps |-> ps]
-  ELSE IF ps.skipped >= MIN_SKIP_BYTES * PS_Skips(ps) THEN [eff |-> TRUE, ps |-> ps]
+  ELSE IF ps.skipped >= PS_Product(ps) THEN [eff |-> TRUE, ps |-> ps]
   ELSE [eff |-> FALSE, ps |-> [ps EXCEPT !.skips = 0]]
 
 \* pre = [kind, i1, i2, vbs]; vbs = ascending vector widths of the finder (<<16>> for SSE2/NEON/simd128,
